@@ -130,7 +130,7 @@ def check_builder(W, rec, rng):
     scheme = rng.choice(["http", "https"])
     hk, host = rng.choice(HOSTS)
     port = rng.choice(["", ":80", ":443", ":8080"])
-    root = rng.choice(["", "/app", "/é p"])
+    root = rng.choice(["", "/app", "/é p", "/wh%3Fat", "/a%23b", "/x%3By"])  # (script roots holding characters that delimit URL parts, escaped)
     base = f"{scheme}://{host}{port}{root}/"
     rec.case()
     rec.observe("builder_triples")
